@@ -489,3 +489,27 @@ func MustJSON(v interface{}) []byte {
 	}
 	return b
 }
+
+// ServerErrorLines returns the last n ERROR/CRITICAL lines of the lifetimes' logs.
+func (w *World) ServerErrorLines(n int) string {
+	files, _ := filepath.Glob(filepath.Join(w.Dir, "stderr-L*.log"))
+	var lines []string
+	for _, f := range files {
+		b, err := os.ReadFile(f)
+		if err != nil {
+			continue
+		}
+		for _, ln := range strings.Split(string(b), "\n") {
+			if strings.Contains(ln, " ERROR ") || strings.Contains(ln, " CRITICAL ") {
+				if len(ln) > 400 {
+					ln = ln[:400]
+				}
+				lines = append(lines, filepath.Base(f)+": "+ln)
+			}
+		}
+	}
+	if len(lines) > n {
+		lines = lines[len(lines)-n:]
+	}
+	return strings.Join(lines, "\n")
+}
